@@ -32,7 +32,17 @@ EXTRA_THEOREMS = [
     "PymotoVerif.C02.module_sensitivity_is_back", "PymotoVerif.C02.local_adjoint_is_transposed_jacobian",
     "PymotoVerif.C02.local_jacobian_is_derivative",
 ]
-EXTRA_LEAN_MODULES = ["PymotoVerif.Props.C09", "PymotoVerif.Props.C16", "PymotoVerif.Props.C12", "PymotoVerif.Props.C14",
+EXTRA_THEOREMS += [
+    "PymotoVerif.C01Assembly.assemble_adjoint_dense", "PymotoVerif.C01Assembly.assembleDom_adjoint_dense",
+    "PymotoVerif.C01Assembly.assemble_adjoint_dyad", "PymotoVerif.C01Assembly.assembleDom_adjoint_dyad",
+    "PymotoVerif.C01Assembly.assemble_adjoint_dense_realpart", "PymotoVerif.C01Assembly.assemble_sens_seed_idempotent",
+    "PymotoVerif.C01Assembly.elemOp_adjoint", "PymotoVerif.C01Assembly.nodalOp_adjoint",
+    "PymotoVerif.C07.linsolve_adjoint", "PymotoVerif.C07.linsolve_sens_eq", "PymotoVerif.C07.linsolve_finite_identity",
+    "PymotoVerif.C07.inverse_adjoint", "PymotoVerif.C07.inverse_finite_identity", "PymotoVerif.C07.soe_adjoint",
+    "PymotoVerif.C07.staticcond_adjoint",
+    "PymotoVerif.C11.eig_dense_adjoint_partial", "PymotoVerif.C11.eig_sparse_eigval_adjoint",
+]
+EXTRA_LEAN_MODULES = ["PymotoVerif.Props.C01Assembly", "PymotoVerif.Props.C07", "PymotoVerif.Props.C11", "PymotoVerif.Props.C09", "PymotoVerif.Props.C16", "PymotoVerif.Props.C12", "PymotoVerif.Props.C14",
                       "PymotoVerif.Props.C02"]
 RULE = ("pointwise stream: random shapes/values for the six pointwise modules; family streams: the quick-size response+sensitivity "
         "correspondences of C09, C16, C14; oracle: N configurations per module family (17 families) x 2 directions through the adjoint oracle. "
@@ -52,6 +62,26 @@ ASSUMPTIONS = [
 def _pm():
     import pymoto
     return pymoto
+
+
+FINDING_KEY_EIG = "eigensolve-sparse-complex-hermitian-sens"
+
+
+def probe_eig_sparse_hermitian(ctx):
+    """open finding: replay the witness on the real code"""
+    import os
+    import subprocess
+    import sys
+    from ..common import VERIF
+    f = os.path.join(VERIF, "corpus", "defects", "pending", "c01_eigensolve_sparse_complex_hermitian.py")
+    p = subprocess.run([sys.executable, f], capture_output=True, text=True, timeout=600)
+    if p.returncode != 0:
+        lines = [l for l in p.stdout.strip().split("\n") if l.startswith("sparse")]
+        return (lines[-1] if lines else "witness still fails")[:200]
+    return None
+
+
+FINDING_PROBES = {FINDING_KEY_EIG: probe_eig_sparse_hermitian}
 
 
 def _bits(x):
@@ -195,13 +225,27 @@ def correspondence(ctx):
             ctx.evaluations += 1
             ctx.branch("adjoint." + fam)
             skipped += getattr(case, "skipped", 0)
-            if r[0] == "err":
+            if r[0] == "err" and zoo.numerical_limit(fam, r[2]):
+                ctx.skipped_boundary += 1
+            elif r[0] == "err":
                 ctx.oracle_fail(f"{case.name}: response()/sensitivity() raised {r[2][:300]}", {"family": fam, "case": case.name})
             elif r[1]:
                 ctx.oracle_fail(r[1], {"family": fam, "case": case.name})
             else:
                 ctx.distinct.add(("adjoint", case.name))
     ctx.skipped_boundary += skipped
+    # the open finding's input class (sparse EigenSolve, complex Hermitian): judged by the oracle, tagged with the key
+    for _ in range(3 if ctx.quick else 20):
+        case = zoo.gen_eigensolve_sparse(ctx.nprng, real_only=False)
+        if ".c." not in case.name:
+            continue
+        r = call_impl(zoo.adjoint_oracle, case, ctx.nprng, 1, True)
+        ctx.evaluations += 1
+        ctx.branch("adjoint.eigensolve_sparse.complex_hermitian(finding)")
+        if r[0] == "err":
+            ctx.oracle_fail(f"{case.name}: raised {r[2][:200]}", {"case": case.name}, key=FINDING_KEY_EIG)
+        elif r[1]:
+            ctx.oracle_fail(r[1], {"case": case.name}, key=FINDING_KEY_EIG)
 
 
 def search(ctx, disagreements):
